@@ -28,7 +28,7 @@ type SuperOpts struct {
 }
 
 // hangS: a traced case that stays current this long is a non-returning call.
-const hangS = 90
+const hangS = 180
 
 type childOutcome struct {
 	res      *Result
@@ -331,12 +331,12 @@ func Supervise(o SuperOpts) int {
 				st, _ := os.Stat(casePath)
 				if st != nil && time.Since(st.ModTime()) < hangS*time.Second {
 					agg.Inconclusive++
-					agg.InconcNotes = append(agg.InconcNotes, fmt.Sprintf("batch %s exceeded its watchdog twice without a single call hanging (last case younger than 90 s)", b.Name))
+					agg.InconcNotes = append(agg.InconcNotes, fmt.Sprintf("batch %s exceeded its watchdog twice without a single call hanging (last case younger than 180 s)", b.Name))
 					return
 				}
 				agg.NViol++
 				agg.Violations = append(agg.Violations, Violation{Prop: o.Prop, Kind: "hang", Key: tc.Key, Batch: b.Name,
-					Msg: "a single call did not return within 90 s (watchdog of the traced re-run)\n" + oc2.logTail, Payload: tc.Payload})
+					Msg: "a single call did not return within 180 s (watchdog of the traced re-run)\n" + oc2.logTail, Payload: tc.Payload})
 				return
 			}
 			if b.Slow && (strings.Contains(oc2.exit, "killed") || strings.Contains(oc2.logTail, "out of memory") || strings.Contains(oc2.logTail, "cannot allocate memory")) {
